@@ -95,3 +95,7 @@ Fixpoint while_x {A R} (fuel : nat) (step : A -> result (A + (A + R))) (a : A) :
 
 (* options.Options as far as the length filter reads it *)
 Record opts := mkOpts { o_min : Z; o_max : Z }.
+
+(* s[:a] and s[a:] with Python's rule for a negative bound *)
+Definition py_slice_upto {X} (l : list X) (a : Z) : list X := if a <? 0 then zfirstn (Z.max 0 (zlen l + a)) l else zfirstn a l.
+Definition py_slice_from {X} (l : list X) (a : Z) : list X := if a <? 0 then zskipn (Z.max 0 (zlen l + a)) l else zskipn a l.
